@@ -138,6 +138,8 @@ def tlc(module, cfg=None, files=(), workers=1, timeout=600, extra=(), dfs=False,
     rc, out, wall = run(cmd, cwd=wd, env=env)
     r = TlcResult()
     r.rc, r.out, r.wall, r.workdir = rc, out, wall, wd
+    if os.environ.get("VERIF_DEBUG"):
+        print("[tlc %s %s: %.1fs rc=%s]" % (module, cfgname, wall, rc), flush=True)
     m = None
     for m in re.finditer(r"(\d+) states generated, (\d+) distinct states found", out):
         pass
